@@ -502,9 +502,11 @@ structure LabelShape (lowerStr : List Char → List Char) (p : Profile) (name l 
   star : name = ['*'] → l = ['*']
 
 theorem idnaLabel_shape {lowerStr : List Char → List Char} (hA : LowerAscii lowerStr)
-    (p : Profile) (name l : List Char) (h : idnaLabel lowerStr p name = .ok l) :
+    (chk : Bool) (p : Profile) (name l : List Char) (h : idnaLabelG chk lowerStr p name = .ok l) :
     LabelShape lowerStr p name l := by
-  unfold idnaLabel at h
+  unfold idnaLabelG at h
+  split at h
+  · exact absurd h (by simp)
   by_cases hn : allAscii name = true
   · simp only [hn, if_true, Res.ok.injEq] at h
     subst h
@@ -530,9 +532,9 @@ theorem idnaLabel_shape {lowerStr : List Char → List Char} (hA : LowerAscii lo
       exact absurd h (hr l)
 
 theorem idnaLabel_noUpper {lowerStr : List Char → List Char} (hA : LowerAscii lowerStr)
-    (hU : LowerNoUpper lowerStr) (p : Profile) (name l : List Char)
-    (h : idnaLabel lowerStr p name = .ok l) : ∀ c ∈ l, isAsciiUpper c = false := by
-  have sh := idnaLabel_shape hA p name l h
+    (hU : LowerNoUpper lowerStr) (chk : Bool) (p : Profile) (name l : List Char)
+    (h : idnaLabelG chk lowerStr p name = .ok l) : ∀ c ∈ l, isAsciiUpper c = false := by
+  have sh := idnaLabel_shape hA chk p name l h
   by_cases hn : allAscii name = true
   · rw [sh.asciiCase hn]
     exact (map_asciiLower_ascii name hn).2.1
@@ -545,9 +547,9 @@ theorem idnaLabel_noUpper {lowerStr : List Char → List Char} (hA : LowerAscii 
     · exact (punycode_good p _ o ho c hc').notUpper (fun d hd => hU.noUpper name d hd)
 
 theorem idnaLabel_noDot {lowerStr : List Char → List Char} (hA : LowerAscii lowerStr)
-    (hD : LowerNoDot lowerStr) (p : Profile) (name l : List Char) (hname : '.' ∉ name)
-    (h : idnaLabel lowerStr p name = .ok l) : '.' ∉ l := by
-  have sh := idnaLabel_shape hA p name l h
+    (hD : LowerNoDot lowerStr) (chk : Bool) (p : Profile) (name l : List Char) (hname : '.' ∉ name)
+    (h : idnaLabelG chk lowerStr p name = .ok l) : '.' ∉ l := by
+  have sh := idnaLabel_shape hA chk p name l h
   by_cases hn : allAscii name = true
   · rw [sh.asciiCase hn]
     exact (map_asciiLower_ascii name hn).2.2.1 hname
@@ -559,19 +561,19 @@ theorem idnaLabel_noDot {lowerStr : List Char → List Char} (hA : LowerAscii lo
 
 /-! ## The label loop -/
 
-theorem idnaLabels_spec (lowerStr : List Char → List Char) (p : Profile) (names : List (List Char)) :
-    ∀ ls, idnaLabels lowerStr p names = .ok ls →
+theorem idnaLabels_spec (chk : Bool) (lowerStr : List Char → List Char) (p : Profile) (names : List (List Char)) :
+    ∀ ls, idnaLabelsG chk lowerStr p names = .ok ls →
       ls.length = names.length ∧
-      ∀ x ∈ names.zip ls, idnaLabel lowerStr p x.1 = .ok x.2 := by
+      ∀ x ∈ names.zip ls, idnaLabelG chk lowerStr p x.1 = .ok x.2 := by
   induction names with
   | nil =>
     intro ls h
-    simp only [idnaLabels, Except.ok.injEq] at h
+    simp only [idnaLabelsG, Except.ok.injEq] at h
     subst h
     simp
   | cons name rest ih =>
     intro ls h
-    simp only [idnaLabels] at h
+    simp only [idnaLabelsG] at h
     split at h
     · rename_i l hl
       split at h
@@ -588,10 +590,10 @@ theorem idnaLabels_spec (lowerStr : List Char → List Char) (p : Profile) (name
       · exact absurd h (by simp)
     · exact absurd h (by simp)
 
-theorem toIdnaStr_ok (lowerStr : List Char → List Char) (p : Profile) (domain out : List Char)
-    (h : toIdnaStr lowerStr p domain = .ok out) :
-    ∃ ls, idnaLabels lowerStr p (splitOn '.' domain) = .ok ls ∧ out = joinWith '.' ls := by
-  unfold toIdnaStr at h
+theorem toIdnaStr_ok (chk : Bool) (lowerStr : List Char → List Char) (p : Profile) (domain out : List Char)
+    (h : toIdnaStrG chk lowerStr p domain = .ok out) :
+    ∃ ls, idnaLabelsG chk lowerStr p (splitOn '.' domain) = .ok ls ∧ out = joinWith '.' ls := by
+  unfold toIdnaStrG at h
   split at h
   · rename_i ls hls
     simp only [Res.ok.injEq] at h
@@ -599,13 +601,13 @@ theorem toIdnaStr_ok (lowerStr : List Char → List Char) (p : Profile) (domain 
   · rename_i e he
     -- an error value is never `.ok` : `idnaLabels` only puts non-ok results in `.error`
     exfalso
-    have : ∀ names e, idnaLabels lowerStr p names = .error e → ∀ o, e ≠ .ok o := by
+    have : ∀ names e, idnaLabelsG chk lowerStr p names = .error e → ∀ o, e ≠ .ok o := by
       intro names
       induction names with
-      | nil => intro e h; simp [idnaLabels] at h
+      | nil => intro e h; simp [idnaLabelsG] at h
       | cons name rest ih =>
         intro e h o
-        simp only [idnaLabels] at h
+        simp only [idnaLabelsG] at h
         split at h
         · split at h
           · exact absurd h (by simp)
@@ -675,19 +677,40 @@ theorem exists_zip_of_mem_right {α β : Type} (as : List α) (bs : List β)
       · obtain ⟨a', ha'⟩ := ih bs' (by simpa using h) hb
         exact ⟨a', by simp [ha']⟩
 
+theorem exists_zip_of_mem_left {α β : Type} (as : List α) (bs : List β)
+    (h : bs.length = as.length) (a : α) (ha : a ∈ as) : ∃ b, (a, b) ∈ as.zip bs := by
+  induction as generalizing bs with
+  | nil => simp at ha
+  | cons a' as ih =>
+    cases bs with
+    | nil => simp at h
+    | cons b bs' =>
+      rcases List.mem_cons.1 ha with rfl | ha
+      · exact ⟨b, by simp⟩
+      · obtain ⟨b', hb'⟩ := ih bs' (by simpa using h) ha
+        exact ⟨b', by simp [hb']⟩
+
 theorem idnaLabels_self {lowerStr : List Char → List Char} (hA : LowerAscii lowerStr)
-    (p : Profile) (names : List (List Char))
-    (h : ∀ n ∈ names, allAscii n = true ∧ ∀ c ∈ n, isAsciiUpper c = false) :
-    idnaLabels lowerStr p names = .ok names := by
+    (chk : Bool) (p : Profile) (names : List (List Char))
+    (h : ∀ n ∈ names, allAscii n = true ∧ ∀ c ∈ n, isAsciiUpper c = false)
+    (hlen : chk = true → ∀ n ∈ names, n.length ≤ maxLabelChars) :
+    idnaLabelsG chk lowerStr p names = .ok names := by
   induction names with
   | nil => rfl
   | cons n ns ih =>
     obtain ⟨h1, h2⟩ := h n List.mem_cons_self
-    have hl : idnaLabel lowerStr p n = .ok n := by
-      unfold idnaLabel
-      simp only [h1, if_true]
+    have hl : idnaLabelG chk lowerStr p n = .ok n := by
+      unfold idnaLabelG
+      have hc : (chk && decide (n.length > maxLabelChars)) = false := by
+        cases chk with
+        | false => rfl
+        | true =>
+          have := hlen rfl n List.mem_cons_self
+          simp only [Bool.true_and, decide_eq_false_iff_not]; omega
+      simp only [hc, Bool.false_eq_true, if_false, h1, if_true]
       rw [hA.ascii n h1, (map_asciiLower_ascii n h1).2.2.2 h2]
-    simp only [idnaLabels, hl, ih (fun m hm => h m (List.mem_cons_of_mem _ hm))]
+    simp only [idnaLabelsG, hl, ih (fun m hm => h m (List.mem_cons_of_mem _ hm))
+      (fun hc m hm => hlen hc m (List.mem_cons_of_mem _ hm))]
 
 /-! ## No arithmetic surprise on inputs of at most 3855 characters
 
@@ -1055,5 +1078,184 @@ theorem overflowWitness_panics : punycodeEncodeP .dev overflowWitness = .panic :
 theorem overflowWitness_length : overflowWitness.length = 4001 := by
   simp only [overflowWitness, witnessK, List.length_append, List.length_replicate,
     List.length_cons, List.length_nil]
+
+/-! ## The label length check (commit 300bbf4) -/
+
+theorem idnaLabelG_len (lowerStr : List Char → List Char) (p : Profile) (name l : List Char)
+    (h : idnaLabelG true lowerStr p name = .ok l) : name.length ≤ maxLabelChars := by
+  unfold idnaLabelG at h
+  split at h
+  · exact absurd h (by simp)
+  · rename_i hc
+    simp only [Bool.true_and, decide_eq_true_eq] at hc
+    omega
+
+theorem idnaLabelG_too_long (lowerStr : List Char → List Char) (p : Profile) (name : List Char)
+    (h : name.length > maxLabelChars) : idnaLabelG true lowerStr p name = .err := by
+  simp [idnaLabelG, h]
+
+/-- Lower-casing a label of at most 63 characters gives at most 3855 characters. True of Unicode
+with a wide margin: `char::to_lowercase` yields at most 3 characters per character (189). -/
+structure LowerBounded (lowerStr : List Char → List Char) : Prop where
+  bound : ∀ s, s.length ≤ maxLabelChars → (lowerStr s).length ≤ 3855
+
+theorem lowerBounded_of_factor {lowerStr : List Char → List Char} (k : Nat) (hk : k ≤ 61)
+    (h : ∀ s, (lowerStr s).length ≤ k * s.length) : LowerBounded lowerStr := by
+  constructor
+  intro s hs
+  have h1 := h s
+  have h2 : k * s.length ≤ 61 * 63 := Nat.mul_le_mul hk hs
+  omega
+
+theorem liftLower_length {lower : Char → List Char} (k : Nat) (h : ∀ c, (lower c).length ≤ k)
+    (s : List Char) : (liftLower lower s).length ≤ k * s.length := by
+  induction s with
+  | nil => simp [liftLower]
+  | cons c cs ih =>
+    simp only [liftLower, List.flatMap_cons, List.length_append, List.length_cons] at ih ⊢
+    have := h c
+    rw [Nat.mul_add]
+    omega
+
+theorem liftLower_bounded {lower : Char → List Char} (k : Nat) (hk : k ≤ 61)
+    (h : ∀ c, (lower c).length ≤ k) : LowerBounded (liftLower lower) :=
+  lowerBounded_of_factor k hk (liftLower_length k h)
+
+theorem lowerAsciiOnly_bounded : LowerBounded (liftLower lowerAsciiOnly) :=
+  liftLower_bounded 1 (by omega) (fun _ => by simp [lowerAsciiOnly])
+
+/-- With the check, one label gives `ok` or `err` in both profiles. -/
+theorem idnaLabelG_total {lowerStr : List Char → List Char} (hB : LowerBounded lowerStr)
+    (p : Profile) (name : List Char) :
+    (∃ l, idnaLabelG true lowerStr p name = .ok l) ∨ idnaLabelG true lowerStr p name = .err := by
+  by_cases hlen : name.length > maxLabelChars
+  · exact Or.inr (idnaLabelG_too_long lowerStr p name hlen)
+  · left
+    have hc : (true && decide (name.length > maxLabelChars)) = false := by simp [hlen]
+    unfold idnaLabelG
+    simp only [hc, Bool.false_eq_true, if_false]
+    by_cases hn : allAscii name = true
+    · exact ⟨lowerStr name, by simp only [hn, if_true]⟩
+    · obtain ⟨o, ho, _⟩ := punycode_short p (lowerStr name) (hB.bound name (by omega))
+      refine ⟨xnPrefix ++ o, ?_⟩
+      simp only [hn, Bool.false_eq_true, if_false, ho]
+
+theorem idnaLabelsG_error (chk : Bool) (lowerStr : List Char → List Char) (p : Profile)
+    (names : List (List Char)) (e : Res) (h : idnaLabelsG chk lowerStr p names = .error e) :
+    ∃ name ∈ names, idnaLabelG chk lowerStr p name = e := by
+  induction names with
+  | nil => simp [idnaLabelsG] at h
+  | cons n ns ih =>
+    simp only [idnaLabelsG] at h
+    split at h
+    · split at h
+      · exact absurd h (by simp)
+      · rename_i e' he'
+        simp only [Except.error.injEq] at h
+        subst h
+        obtain ⟨name, hn, hname⟩ := ih he'
+        exact ⟨name, List.mem_cons_of_mem _ hn, hname⟩
+    · rename_i r hr
+      simp only [Except.error.injEq] at h
+      exact ⟨n, List.mem_cons_self, h⟩
+
+theorem toIdnaStrG_total {lowerStr : List Char → List Char} (hB : LowerBounded lowerStr)
+    (p : Profile) (domain : List Char) :
+    (∃ out, toIdnaStrG true lowerStr p domain = .ok out) ∨
+      toIdnaStrG true lowerStr p domain = .err := by
+  unfold toIdnaStrG
+  cases h : idnaLabelsG true lowerStr p (splitOn '.' domain) with
+  | ok ls => exact Or.inl ⟨_, rfl⟩
+  | error e =>
+    right
+    obtain ⟨name, _, hname⟩ := idnaLabelsG_error true lowerStr p _ e h
+    rcases idnaLabelG_total hB p name with ⟨l, hl⟩ | herr
+    · -- an `.ok` never sits in the error slot
+      exfalso
+      obtain ⟨ls, hls, _⟩ : ∃ ls, idnaLabelsG true lowerStr p (splitOn '.' domain) = .ok ls ∧ True := by
+        have := toIdnaStr_ok true lowerStr p domain l (by
+          unfold toIdnaStrG
+          rw [h, ← hname, hl])
+        obtain ⟨ls, hls, _⟩ := this
+        exact ⟨ls, hls, trivial⟩
+      rw [h] at hls
+      exact absurd hls (by simp)
+    · simp only
+      rw [← hname, herr]
+
+/-! ### The old `to_idna` on the overflow witness -/
+
+theorem liftLower_asciiOnly_fix (s : List Char) (h : ∀ c ∈ s, isAscii c = false) :
+    liftLower lowerAsciiOnly s = s := by
+  induction s with
+  | nil => rfl
+  | cons c cs ih =>
+    have hc := h c List.mem_cons_self
+    have hu : isAsciiUpper c = false := by
+      simp only [isAscii, isAsciiUpper, decide_eq_false_iff_not, Bool.and_eq_false_iff] at *
+      omega
+    have := ih (fun x hx => h x (List.mem_cons_of_mem _ hx))
+    simp only [liftLower, List.flatMap_cons, lowerAsciiOnly, asciiLower, hu, Bool.false_eq_true,
+      if_false, List.cons_append, List.nil_append] at this ⊢
+    rw [this]
+
+theorem witnessK_mem (k : Nat) : ∀ c ∈ witnessK k, c = Char.ofNat 0x80 ∨ c = Char.ofNat 0x1061C2 := by
+  intro c hc
+  simp only [witnessK, List.mem_append, List.mem_replicate, List.mem_singleton] at hc
+  rcases hc with ⟨_, h⟩ | h
+  · exact Or.inl h
+  · exact Or.inr h
+
+theorem overflowWitness_lower_fix : liftLower lowerAsciiOnly overflowWitness = overflowWitness := by
+  apply liftLower_asciiOnly_fix
+  intro c hc
+  rcases witnessK_mem 4000 c hc with rfl | rfl <;> decide
+
+/-- Before the repair a single label (no '.') with a non-ASCII character went to the encoder whole. -/
+theorem toIdnaStrOld_single (lowerStr : List Char → List Char) (p : Profile) (name : List Char)
+    (hdot : '.' ∉ name) (hna : allAscii name = false) (r : Res)
+    (hr : punycodeEncodeP p (lowerStr name) = r) (hnok : ∀ o, r ≠ .ok o) :
+    toIdnaStrOld lowerStr p name = r := by
+  unfold toIdnaStrOld toIdnaStrG
+  rw [splitOn_of_no_sep '.' name hdot]
+  have hl : idnaLabelG false lowerStr p name = r := by
+    subst hr
+    simp only [idnaLabelG, Bool.false_and, Bool.false_eq_true, if_false, hna]
+  simp only [idnaLabelsG]
+  rw [hl]
+  cases r with
+  | ok o => exact absurd rfl (hnok o)
+  | err => rfl
+  | panic => rfl
+  | fuel => rfl
+
+theorem overflowWitness_old_panics (lowerStr : List Char → List Char)
+    (hfix : lowerStr overflowWitness = overflowWitness) :
+    toIdnaStrOld lowerStr .dev overflowWitness = .panic := by
+  apply toIdnaStrOld_single
+  · intro hm
+    rcases witnessK_mem 4000 _ hm with h | h <;> revert h <;> decide
+  · cases hall : allAscii overflowWitness with
+    | false => rfl
+    | true =>
+      exfalso
+      simp only [allAscii, List.all_eq_true] at hall
+      have : Char.ofNat 0x80 ∈ overflowWitness := by
+        simp only [overflowWitness, witnessK, List.mem_append, List.mem_replicate]
+        exact Or.inl ⟨by omega, trivial⟩
+      have := hall _ this
+      revert this; decide
+  · rw [hfix]; exact overflowWitness_panics
+  · intro o; simp
+
+theorem overflowWitness_now_err (lowerStr : List Char → List Char) (p : Profile) :
+    toIdnaStr lowerStr p overflowWitness = .err := by
+  unfold toIdnaStr toIdnaStrG
+  have hdot : '.' ∉ overflowWitness := by
+    intro hm
+    rcases witnessK_mem 4000 _ hm with h | h <;> revert h <;> decide
+  rw [splitOn_of_no_sep '.' _ hdot]
+  have := idnaLabelG_too_long lowerStr p overflowWitness (by rw [overflowWitness_length]; decide)
+  simp only [idnaLabelsG, this]
 
 end AcmedVerif.Idna
